@@ -70,6 +70,12 @@ EXCS = ["OSError", "MemoryError", "KeyError", "RecursionError", "ValueError", "I
         "AttributeError", "TypeError", "UnicodeDecodeError", "RuntimeError",
         "KeyError0", "ValueError0", "RuntimeError0", "OSError0"]
 
+# strings that are legal in JSON text but awkward to carry around: lone surrogates (only expressible
+# as \uXXXX escapes), NUL and other control characters, separators that some split functions treat
+# as line breaks, characters outside the BMP, a long one
+WEIRD = ["\ud83d", "a\udc00b", "\udfff\ud800", "\x00", "x\x1by", "\u2028", "\x85", "\U0001F600",
+         "\ufeff", "é" * 700, "%", "\\", '"']
+
 BAD_PARAMS = [
     None, [], [1, 2], "str", 5, {}, {"textDocument": 5}, {"textDocument": {}},
     {"textDocument": {"uri": 7}}, {"textDocument": {"uri": "file:///nonexistent/x.f90"}},
@@ -296,11 +302,29 @@ def gen_sched(g):
         elif r < 0.9 and swarm["unknown"]:
             meth = rng.choice(["textDocument/foldingRange", "workspace/executeCommand", "foo",
                                "textDocument/", "$/progress", "Initialize", "", "exit2",
-                               "textDocument/semanticTokens/full"])
+                               "textDocument/semanticTokens/full", "$/setTrace", "$/cancelRequest",
+                               "$/fortls/status", "foo" + rng.choice(WEIRD), rng.choice(WEIRD)])
             if rng.random() < 0.6:
-                add(gen.req(ids.next(), meth, rng.choice(BAD_PARAMS + [{"a": 1}])))
+                k = add(gen.req(ids.next(), meth, rng.choice(BAD_PARAMS + [{"a": 1}, {"a": rng.choice(WEIRD)}])))
             else:
-                add(gen.note(meth, rng.choice(BAD_PARAMS)))
+                k = add(gen.note(meth, rng.choice(BAD_PARAMS)))
+            ops[k]["esc"] = True  # sent as \uXXXX escapes: lone surrogates have no UTF-8 form
+        elif r < 0.92 and swarm["unknown"]:
+            # well-formed requests of known methods whose *strings* are unusual but legal JSON
+            w = rng.choice(WEIRD)
+            p = rng.choice(paths)
+            li, ch = rand_pos(p)
+            op = rng.choice([
+                gen.req(ids.next(), "workspace/symbol", {"query": w}),
+                gen.req(ids.next(), "textDocument/rename",
+                        {"textDocument": {"uri": gen.uri(p)}, "position": {"line": li, "character": ch},
+                         "newName": "n" + w}),
+                gen.req(ids.next(), "textDocument/hover",
+                        {"textDocument": {"uri": gen.uri(p) + w}, "position": {"line": li, "character": ch}}),
+            ])
+            op["esc"] = True
+            k = add(op)
+            maybe_fault(k, op["m"]["method"])
         elif r < 0.94 and swarm["badparams"]:
             meth = rng.choice(sorted(METHOD_TARGETS))
             bp = rng.choice(BAD_PARAMS)
